@@ -21,6 +21,8 @@ from . import common as C
 from . import c20_util as U
 from . import geomgen as G
 
+DEBUG_ONLY = None       # see run(): on()
+
 ANCHOR_FILES = ['spatialpandas/geodataframe.py', 'spatialpandas/geoseries.py',
                 'spatialpandas/dask.py', 'spatialpandas/io/parquet.py',
                 'spatialpandas/tools/sjoin.py']
@@ -90,20 +92,22 @@ def layouts_fixed():
     return [
         # target: >= 2 geometry columns of different kinds, active neither first nor 'geometry'
         ([('a', 0, 0), ('v', None, 0), ('b', 2, 3), ('c', 5, 5)], 'b'),
-        ([('a', 6, 1), ('b', 1, 4), ('v', None, 0), ('w', None, 1)], 'b'),
+        # (the plain columns of some layouts are pandas extension arrays that are not geometries:
+        # str, category, nullable Int64 - see c20_util.flavours)
+        ([('a', 6, 1), ('b', 1, 4), ('v', None, 0), ('name_str', None, 1)], 'b'),
         # a column literally named 'geometry' that is NOT the active one
         ([('a', 0, 0), ('geometry', 5, 2), ('v', None, 0), ('c', 2, 6)], 'c'),
-        ([('geometry', 0, 0), ('v', None, 0), ('b', 4, 3)], 'b'),
+        ([('geometry', 0, 0), ('v', None, 0), ('b', 4, 3), ('kind_cat', None, 2)], 'b'),
         # a PLAIN column named 'geometry'
         ([('a', 3, 0), ('geometry', None, 2), ('v', None, 0), ('b', 1, 5)], 'b'),
         # controls: active is the first / is named 'geometry' / the only one
-        ([('a', 0, 0), ('v', None, 0), ('b', 2, 3)], 'a'),
+        ([('cnt_Int64', None, 1), ('a', 0, 0), ('v', None, 0), ('b', 2, 3)], 'a'),
         ([('a', 0, 0), ('v', None, 0), ('geometry', 2, 3)], 'geometry'),
         ([('v', None, 0), ('b', 5, 3)], 'b'),
     ]
 
 
-def layout_random(rng, allow_empty_name=False):
+def layout_random(rng, allow_empty_name=False, scope='parquet'):
     ng = rng.choice([2, 2, 3, 3, 4])
     gnames = rng.sample(U.GEOM_NAMES, ng)
     if allow_empty_name and rng.random() < 0.5:
@@ -112,6 +116,10 @@ def layout_random(rng, allow_empty_name=False):
     shifts = rng.sample(range(U.NROWS), ng)
     cols = [(n, k, s) for n, k, s in zip(gnames, kinds, shifts)]
     plains = ['v'] + rng.sample(['w', 'z'], rng.randint(0, 1))
+    # plain columns of other storage classes (extension arrays that are not geometries, numpy
+    # blocks other than int64) usable in `scope`
+    if rng.random() < 0.6:
+        plains += rng.sample(U.flavours(scope), rng.choice([1, 1, 2, 3]))
     if 'geometry' not in gnames and rng.random() < 0.15:
         plains.append('geometry')
     for p in plains:
@@ -217,12 +225,20 @@ def gen_pop(rng, kind, df, canonical=False):
             k = rng.randint(0, len(others))
             op.update(before=others[:k], after=others[k:])
     elif kind == 'OSetGeometry':
-        if canonical:
+        if canonical == 'plain':
+            # a column that is not a geometry (an extension array rather than a numpy column when
+            # there is one): must be refused
+            plain = [c for c in cols if c not in gcols]
+            ext = [c for c in plain if U.is_extension_flavour(c)]
+            op.update(g=(ext or plain or ['missing'])[-1], inplace=False)
+        elif canonical:
             alt = [g for g in gcols if g != act]
             op.update(g=alt[-1] if alt else (gcols[0] if gcols else 'a'), inplace=(canonical == 'inplace'))
         else:
             r = rng.random()
-            g = rng.choice(gcols) if gcols and r < 0.85 else (rng.choice(cols) if cols and r < 0.95 else 'missing')
+            plain = [c for c in cols if c not in gcols]
+            g = rng.choice(gcols) if gcols and r < 0.8 else (rng.choice(plain) if plain and r < 0.9 else (
+                rng.choice(cols) if cols and r < 0.95 else 'missing'))
             op.update(g=g, inplace=rng.random() < 0.5)
     return op
 
@@ -237,19 +253,53 @@ def canonical_ops(df):
         out.append(gen_pop(rng, k, df, canonical=True))
     for k, modes in (('OMerge', [True, 'ident']), ('OSubset', [True, 'drop-active', 'no-geometry']), ('ORename', [True, 'active', 'to-geometry']),
                      ('OConcat', [True, 'disagree', 'plain-first']),
-                     ('OSetGeometry', [True, 'inplace'])):
+                     ('OSetGeometry', [True, 'inplace', 'plain'])):
         for m in modes:
             out.append(gen_pop(rng, k, df, canonical=m))
     return out
 
 
+def flavour_sequences(f):
+    """[((cols, target), [pandas op sequences])] around one plain column `f` of a given storage"""
+    l1 = ([('a', 0, 0), (f, None, 1), ('b', 2, 3), ('v', None, 0)], 'b')
+    l2 = ([(f, None, 0), ('geometry', 5, 2), ('c', 2, 6)], 'c')       # the plain column comes first
+    sub = lambda *names: {'op': 'OSubset', 'names': list(names)}          # noqa: E731
+    drop = lambda *names: {'op': 'ODrop', 'names': list(names)}           # noqa: E731
+    s1 = [[sub(f)],
+          [sub('v', f), {'op': 'OConstructor'}],
+          [drop('a', 'b')],
+          [drop('a', 'b'), {'op': 'OSortIndex'}, {'op': 'OIlocSlice', 'a': 1, 'b': 4}],
+          [sub(f, 'b')],
+          [sub(f, 'a')],                                            # drops the active column only
+          [{'op': 'OSetGeometry', 'g': f, 'inplace': False}],       # refused
+          [{'op': 'OIlocSlice', 'a': 1, 'b': 6}, sub(f), {'op': 'OGeoInit'}],   # GeoDataFrame(no geometry) raises
+          [sub(f, 'b'), {'op': 'OPickle'}, drop('b')],
+          [sub(f, 'b'), {'op': 'OConcat', 'before': [], 'after': [{'kind': 'same'}]}, drop('b')]]
+    s2 = [[sub(f)],
+          [drop('geometry', 'c')],
+          [sub(f, 'c')],
+          [{'op': 'OGeoInit'}],
+          [sub(f, 'geometry')],
+          [{'op': 'OSetGeometry', 'g': f, 'inplace': True}]]
+    return [(l1, s1), (l2, s2)]
+
+
+def flavour_dask_sequences(f):
+    sub = lambda *names: {'op': 'DSubset', 'names': list(names)}          # noqa: E731
+    return [[sub('v', f), {'op': 'DMapIdentity'}],
+            [{'op': 'DDrop', 'names': ['a']}, {'op': 'DDrop', 'names': ['b']}],
+            [sub(f, 'b'), {'op': 'DConcatSelf'}, {'op': 'DDrop', 'names': ['b']}],
+            [{'op': 'DSortValues', 'auto': True}, sub(f, 'v')],
+            [{'op': 'DSetGeometry', 'name': f}]]
+
+
 # --------------------------------------------------------------------------
 # running one pandas sequence on the real library
 # --------------------------------------------------------------------------
-def run_pandas_seq(cols, ops, on_step=None):
+def run_pandas_seq(cols, ops, on_step=None, nrows=None):
     """returns (observations, executed ops with the concat operands recorded, last frame)"""
     import pandas as pd
-    df = pd.DataFrame(U.build_dict(cols))
+    df = pd.DataFrame(U.build_dict(cols, nrows or U.NROWS))
     res, done = [], []
     for op in ops:
         done.append(op)
@@ -387,6 +437,7 @@ def check_uses_dask(rep, ddf, frames, meta):
     name = U.active(ddf._meta)
     whole = pd.concat(frames)
     rng = rep.rng
+    nrows = meta.get('nrows') or U.NROWS
     # partition bounds / partition sindex come from the active column (public accessors:
     # ddf.geometry.partition_bounds, ddf.partition_sindex)
     fresh = ddf.copy()
@@ -398,8 +449,8 @@ def check_uses_dask(rep, ddf, frames, meta):
         scheduler='synchronous').values, dtype=float)
     got_b = np.asarray(fresh.geometry.partition_bounds.values, dtype=float)
     same = got_b.shape == want_b.shape and bool(np.all((got_b == want_b) | (np.isnan(got_b) & np.isnan(want_b))))
-    tq0 = rng.randint(0, U.NROWS - 2)
-    qbox = U.box_over(tq0, min(U.NROWS - 1, tq0 + 1))
+    tq0 = rng.randint(0, nrows - 2)
+    qbox = U.box_over(tq0, min(nrows - 1, tq0 + 1))
     got_sel = sorted(int(i) for i in fresh.partition_sindex.intersects(
         np.array([qbox[0], qbox[2], qbox[1], qbox[3]])))
     want_sel = [i for i, tb in enumerate(want_b) if not np.isnan(tb).any()
@@ -439,8 +490,8 @@ def check_uses_dask(rep, ddf, frames, meta):
         rep.count('dask:projection-changes-partitioning')
         return
     # cx: rows by the active column
-    t0 = rng.randint(0, U.NROWS - 2)
-    t1 = rng.randint(t0, min(U.NROWS - 1, t0 + 2))
+    t0 = rng.randint(0, nrows - 2)
+    t1 = rng.randint(t0, min(nrows - 1, t0 + 2))
     box = U.box_over(t0, t1)
     got = ddf.cx[box[0]:box[1], box[2]:box[3]].compute(scheduler='synchronous')
     want_mask = U.rows_in_box(whole, name, box)
@@ -696,8 +747,10 @@ DOP_KINDS = ['DSubset', 'DMask', 'DLocAll', 'DAssign', 'DDrop', 'DRename', 'DRes
 SHUFFLES = ('DSortValues', 'DSetIndex', 'DRepartition', 'DPackPartitions')
 
 
-def gen_dop(rng, kind, ddf, frames, nshuffles):
+def gen_dop(rng, kind, ddf, frames, nshuffles, nrows=None):
     """None when the operation is not applicable in the current real state"""
+    nrows = nrows or U.NROWS
+    wide = ddf.npartitions > U.WIDE_ABOVE
     from spatialpandas.geometry import GeometryDtype
     from spatialpandas.dask import DaskGeoDataFrame
     meta = ddf._meta
@@ -762,14 +815,19 @@ def gen_dop(rng, kind, ddf, frames, nshuffles):
         if kind == 'DSetIndex':
             op['name'] = 'v'
         if kind == 'DPackPartitions':
-            op['want'] = rng.randint(1, 3)
+            # wide frames also: the default (npartitions=None -> 8)
+            op['want'] = rng.choice([1, 2, 3, None]) if wide else rng.randint(1, 3)
         if kind == 'DRepartition':
+            if wide and nshuffles > 0:
+                # repartitioning what a shuffle of few rows into many partitions left behind runs
+                # into Dask's own division asserts (counted as degenerate when met on small frames)
+                return None
             op['want'] = rng.randint(1, ddf.npartitions)     # to fewer (or as many) partitions
     elif kind in ('DCx', 'DCxPartitions'):
         if not parts_ok:
             return None
-        t0 = rng.randint(0, U.NROWS - 1)
-        t1 = rng.randint(t0, U.NROWS - 1)
+        t0 = rng.randint(0, nrows - 1)
+        t1 = rng.randint(t0, nrows - 1) if rng.random() < 0.5 else min(nrows - 1, t0 + rng.randint(0, 3))
         op['box'] = list(U.box_over(t0, t1))
         op['sel'] = U.partitions_meeting(frames, act, op['box']) if valid else []
     elif kind == 'DSetGeometry':
@@ -778,7 +836,7 @@ def gen_dop(rng, kind, ddf, frames, nshuffles):
     return op
 
 
-def run_dask_steps(ddf, dops_spec, rep, rng, nsteps, history, layout_meta):
+def run_dask_steps(ddf, dops_spec, rep, rng, nsteps, history, layout_meta, nrows=None, kinds=None):
     """apply `nsteps` random Dask operations; returns (observations, executed ops)"""
     res, done = [], []
     frames = []
@@ -790,10 +848,17 @@ def run_dask_steps(ddf, dops_spec, rep, rng, nsteps, history, layout_meta):
             if step >= len(dops_spec):
                 break
             op = dict(dops_spec[step])
+            if op.pop('auto', False):
+                # a specified KIND whose parameters come from the live state
+                g = gen_dop(rng, op['op'], ddf, frames, nsh, nrows)
+                if g is None:
+                    break
+                g.update({k: v for k, v in op.items() if k != 'op'})
+                op = g
         else:
             op = None
             for _ in range(8):
-                op = gen_dop(rng, rng.choice(DOP_KINDS), ddf, frames, nsh)
+                op = gen_dop(rng, rng.choice(kinds or DOP_KINDS), ddf, frames, nsh, nrows)
                 if op is not None:
                     break
             if op is None:
@@ -888,6 +953,11 @@ def run(rep):
         rep.extra['section_seconds'][name] = round(time.time() - marks[-1][1], 1)
         marks.append((name, time.time()))
 
+    def on(section):
+        """every section runs; a developer's script may set harness.c20.DEBUG_ONLY = {...} (never set
+        by ./check) to look at some sections alone"""
+        return DEBUG_ONLY is None or section in DEBUG_ONLY
+
     p_cases, p_res, p_meta = [], [], []
 
     def add_pandas(cols, ops_spec, target):
@@ -907,7 +977,7 @@ def run(rep):
 
     # (1) every row of the table: all sequences of <= 2 canonical operations
     fixed = layouts_fixed()
-    for li, (cols, target) in enumerate(fixed):
+    for li, (cols, target) in enumerate(fixed if on('table') else []):
         base = [{'op': 'OGeoInit'}, {'op': 'OSetGeometry', 'g': target, 'inplace': li % 2 == 0}]
         _r, _d, df0 = run_pandas_seq(cols, [dict(o) for o in base])
         firsts = canonical_ops(df0)
@@ -921,9 +991,19 @@ def run(rep):
                 for op2 in canonical_ops(df1):
                     if U.pop_applicable(df1, op2):
                         add_pandas(cols, [dict(o) for o in base] + [dict(op1), dict(op2)], target)
+    # (1b) the plain columns of every storage class (c20_util.flavours): a result without any
+    # geometry column is a plain DataFrame WHATEVER holds the columns that are left (extension
+    # arrays that are not geometries as well as numpy blocks), a result that keeps the active
+    # column is a geo frame on it, set_geometry(<such a column>) is refused
+    for f in (U.flavours('pandas') if on('plain-storage') else []):
+        for (cols, target), seqs in flavour_sequences(f):
+            base = [{'op': 'OGeoInit'}, {'op': 'OSetGeometry', 'g': target, 'inplace': False}]
+            for seq in seqs:
+                add_pandas(cols, [dict(o) for o in base] + [dict(o) for o in seq], target)
+                rep.count('plain-storage:' + f)
     mark('table')
     # results of non-inplace operations are independent objects
-    for cols, target in fixed[:(3 if quick else len(fixed))]:
+    for cols, target in (fixed[:(3 if quick else len(fixed))] if on('independence') else []):
         check_independence(rep, cols, target)
     mark('independence')
     # GeoSeries -> frame (geoseries._constructor_expanddim_from_mgr)
@@ -945,10 +1025,10 @@ def run(rep):
                       {'columns': e_cases[i], 'impl': e_res[i]})
 
     # (2) random sequences
-    nseq = 700 if quick else 12000
+    nseq = (700 if quick else 12000) if on('pandas-random') else 0
     uses_every = 9 if quick else 5
     for s in range(nseq):
-        cols, target = layout_random(rng, allow_empty_name=(rng.random() < 0.06))
+        cols, target = layout_random(rng, allow_empty_name=(rng.random() < 0.06), scope='pandas')
         ops = [{'op': 'OGeoInit'}]
         if rng.random() < 0.9:
             ops.append({'op': 'OSetGeometry', 'g': target, 'inplace': rng.random() < 0.5})
@@ -997,7 +1077,7 @@ def run(rep):
     mark('pandas-coq')
 
     # sjoin on the active columns of both frames
-    nsj = 12 if quick else 150
+    nsj = (12 if quick else 150) if on('sjoin') else 0
     for s in range(nsj):
         lcols, ltarget = layout_random(rng)
         rcols, rtarget = layout_random(rng)
@@ -1017,45 +1097,93 @@ def run(rep):
     mark('sjoin')
     # (3) Dask sequences
     d_cases, d_res, d_meta = [], [], []
-    ndask = 70 if quick else 1500
-    for s in range(ndask):
-        if s < len(fixed):
-            cols, target = fixed[s]
-        else:
-            cols, target = layout_random(rng)
+
+    def add_dask(cols, target, want, dops_spec=None, nsteps=None, nrows=None, uses=False, kinds=None,
+                 sample=False):
+        """GeoDataFrame(cols of nrows rows).set_geometry(target) -> from_pandas(want partitions) ->
+        the given / random Dask operations, observed after every step; one model case"""
         pops = [{'op': 'OGeoInit'}, {'op': 'OSetGeometry', 'g': target, 'inplace': False}]
-        _res, pdone, df = run_pandas_seq(cols, pops)
-        want = rng.randint(1, 4)
+        _res, pdone, df = run_pandas_seq(cols, pops, nrows=nrows)
         ddf = dd.from_pandas(df, npartitions=want)
+        lm = {'kind': 'dask', 'columns': cols, 'pandas_ops': [U.strip_private(o) for o in pdone],
+              'npartitions': ddf.npartitions, 'nrows': nrows or U.NROWS}
         first, res, done, last, frames = run_dask_steps(
-            ddf, None, rep, rng, rng.randint(1, 5), pdone,
-            {'kind': 'dask', 'columns': cols, 'pandas_ops': [U.strip_private(o) for o in pdone],
-             'npartitions': ddf.npartitions})
+            ddf, dops_spec, rep, rng, nsteps if nsteps is not None else len(dops_spec), pdone, lm,
+            nrows=nrows, kinds=kinds)
         d_cases.append((U.coq_cols(cols), [U.pop_coq(o) for o in pdone], C.Nat(ddf.npartitions),
                         [U.dop_coq(o) for o in done]))
         d_res.append(wrap_dask(first, res))
         d_meta.append({'columns': cols, 'pandas_ops': [U.strip_private(o) for o in pdone],
-                       'npartitions': ddf.npartitions, 'dask_ops': [U.strip_private(o) for o in done],
+                       'npartitions': ddf.npartitions, 'nrows': nrows or U.NROWS,
+                       'dask_ops': [U.strip_private(o) for o in done],
                        'target': target, '_done': done, '_res': res, '_first': first})
         rep.evaluations += 1
         for o in done:
             rep.count('dask:' + o['op'])
+        rep.count('dask-npartitions:' + ('1-4' if ddf.npartitions <= 4 else '5-32' if ddf.npartitions <= 32
+                                         else '33+'))
         gn = [n for n, k, _ in cols if k is not None]
         if len(gn) >= 2 and target != gn[0]:
             rep.nontrivial(('dask', repr(cols), ddf.npartitions, repr([U.strip_private(o) for o in done])))
-        if s < 3:
+        if sample:
             rep.sample({'columns': cols, 'npartitions': ddf.npartitions,
                         'dask_ops': [U.strip_private(o) for o in done], 'observed': res})
         # uses on the final Dask frame when meta and partitions agree on a valid column
-        if s % 3 == 0 and frames and all(f is not None for f in frames) and \
+        if uses and frames and all(f is not None for f in frames) and \
                 isinstance(last, spatialpandas.dask.DaskGeoDataFrame) and U.active(last._meta) is not None \
                 and all(isinstance(f, GeoDataFrame) and U.active(f) == U.active(last._meta) for f in frames) \
                 and sum(len(f) for f in frames) > 0:
             gl = [str(c) for c, dt in zip(last._meta.columns, last._meta.dtypes) if isinstance(dt, GeometryDtype)]
             check_uses_dask(rep, last, frames,
                             {'columns': cols, 'target': target, 'npartitions': ddf.npartitions,
+                             'nrows': nrows or U.NROWS,
                              'dask_ops': [U.strip_private(o) for o in done], 'geoms': gl})
-    mark('dask')
+        return last
+
+    ndask = (70 if quick else 1500) if on('dask-random') else 0
+    for s in range(ndask):
+        if s < len(fixed):
+            cols, target = fixed[s]
+        else:
+            cols, target = layout_random(rng, scope='dask')
+        add_dask(cols, target, rng.randint(1, 4), None, rng.randint(1, 5), uses=(s % 3 == 0), sample=(s < 3))
+    mark('dask-random')
+    # (3b) plain columns of every storage class Dask can carry, through Dask
+    dfl = U.flavours('dask')
+    full = set(dfl if not quick else rng.sample(dfl, 3))
+    for f in (dfl if on('plain-storage') else []):
+        cols, target = [('a', 0, 0), (f, None, 1), ('b', 2, 3), ('v', None, 0)], 'b'
+        seqs = flavour_dask_sequences(f)
+        for seq in (seqs if f in full else seqs[:1]):
+            add_dask(cols, target, rng.randint(1, 4), [dict(o) for o in seq])
+            rep.count('plain-storage-dask:' + f)
+    mark('dask-plain-storage')
+    # (3c) WIDE frames: partition counts on both sides of the thresholds of the Dask path (32 / 33:
+    # the fan-out of the task shuffle, above which it runs in several stages and above which other
+    # shuffle methods might be chosen; 10 / 11) and beyond; rows = partitions x {1, 2, 3}, the key 'v'
+    # an unsorted permutation, so sort_values / set_index / pack_partitions really shuffle
+    if quick:
+        wide_counts = [(33, 'full'), (32, 'short'), (rng.choice([11, 34, 40, 47, 64, 65, 70]), 'short')]
+    else:
+        wide_counts = [(k, 'full') for k in (10, 11, 31, 32, 33, 34, 40, 64, 65, 100)]
+    shuffle_heavy = ['DSortValues', 'DSetIndex', 'DPackPartitions', 'DRepartition'] * 3 + DOP_KINDS
+    for wi, (k, how) in enumerate(wide_counts if on('wide') else []):
+        nrows = k * rng.choice([1, 2, 3])
+        cols, target = fixed[0] if wi == 0 else layout_random(rng, scope='dask')
+        gn = [n for n, kk, _ in cols if kk is not None]
+        other = next(g for g in gn if g != target)
+        specs = [[{'op': 'DSortValues', 'auto': True}],
+                 [{'op': 'DSetIndex', 'auto': True}]]
+        if how == 'full':
+            specs += [[{'op': 'DPackPartitions', 'auto': True, 'want': 2}],
+                      [{'op': 'DPackPartitions', 'auto': True, 'want': None}],
+                      [{'op': 'DSetGeometry', 'name': other}, {'op': 'DSortValues', 'auto': True}],
+                      [{'op': 'DRepartition', 'auto': True}, {'op': 'DSetIndex', 'auto': True}]]
+        for si, spec in enumerate(specs):
+            add_dask(cols, target, k, spec, nrows=nrows, uses=(si == 0))
+        for _ in range(2 if how == 'full' else 1):
+            add_dask(cols, target, k, None, rng.randint(1, 3), nrows=nrows, kinds=shuffle_heavy)
+    mark('dask-wide')
     report_state_mismatches(rep, 'run_dask', D_CASE, D_RES, d_cases, d_res, d_meta, 'dask')
     mark('dask-coq')
 
@@ -1063,7 +1191,7 @@ def run(rep):
     q_cases, q_res, q_meta = [], [], []
     tmp = tempfile.mkdtemp(prefix='sp_c20_')
     try:
-        nds = 4 if quick else 40
+        nds = (4 if quick else 40) if on('parquet') else 0
         for s in range(nds):
             cols, target = fixed[s] if s < len(fixed) else layout_random(rng)
             df = GeoDataFrame(U.build_dict(cols)).set_geometry(target)
